@@ -2,14 +2,19 @@
 from ekw import ctrl_check
 
 PROPERTY = "C04"
-LEVEL_TEXT = ("Lean theorems over the same system as C02, for ANY event order and interleaving: a purge is commanded only after every consumer ran, after a "
-              "requested value reached the controller, never while a task queued on that host needs it and never while a transfer or fetch commanded from "
-              "that host is unanswered; every transmit/fetch names a source that holds the dataset and still holds it when performed; a purged dataset "
-              "is never needed again; each output is fetched at most once (all nine C04 monitors never fire; InvAll tiers 3/4). Non-atomic task bodies "
-              "(Model/CtrlN.lean, every run of which projects onto the base system): a dataset is queued for purging / purged only after the notices of ALL "
-              "outputs - in particular of the LAST one - of each consumer were processed, hence never while a consumer is still running "
-              "(c04_purge_after_last_notice, c04_no_purge_while_running).")
-LEVEL_NOTE = ("modelled, not verified: scheduler/api.py initialize/plan, scheduler/assign.py build_assignment + the pops of _assignment_heuristic, controller/act.py act/flush_queues, controller/notify.py notify/consider_*, impl.run loop skeleton (Model/Ctrl.lean, one Lean function per Python function). Abstracted as an oracle argument validated for admissibility by the model and supplied from what the real run chose: which (idle worker, computable task) pairs the distance/overhead heuristics and host->component migration pick per round, and which `available` host is the transmit source; theorems quantify over all admissible choices. Executors are abstract (Env + the non-atomic layer Model/CtrlN.lean; SimBridge mirrors both): a dispatched task starts once its inputs are in its host's store and publishes its outputs in index order, one step per output, interleaved with everything else; transmit/fetch read the source store; purge is immediate. Hypothesis WF: tasks topologically numbered, inputs duplicate-free, >=1 output per task, requested outputs exist, worker ids distinct (the generator guarantees it).")
+LEVEL_TEXT = ("Lean theorems over the same system as C02, for ANY event order and interleaving: a purge is commanded only after every consumer ran, after a requested "
+              "value reached the controller, never while a task queued on that host needs it and never while a transfer or fetch commanded from that host is "
+              "outstanding; every transmit/fetch names a source that holds the dataset and still holds it when performed; a purged dataset is never needed again; "
+              "each output is fetched at most once (all C04 monitors never fire). The transmit source is the scan of build_assignment, not an oracle: whatever host "
+              "the scan over ds2host returns - in any order - is believed available AND really holds the dataset, and the scan does find one (c04_scan_source_holds); "
+              "a redundant transfer never exists (c04_no_redundant_transmit). 'Unanswered': when a dataset is queued for purging every transfer and fetch of it has "
+              "been performed and the answer of its fetch has been DELIVERED; only the bare notice of a performed transfer may still be on its way "
+              "(c04_queued_purge_io_done, c04_purge_io_done; the literal reading fails harmlessly: c04_transfer_notice_full_fails, witness replayed on the real code; "
+              "interface to C07 stated there). Belief implies truth for every needed dataset (c04_belief_sound_partial / _full_fails: a late transfer notice re- "
+              "creates `available` for a purged dataset). Non-atomic bodies: purge only after the notices of ALL outputs of each consumer, never while a consumer is "
+              "running (c04_purge_after_last_notice, c04_no_purge_while_running). The real Bridge's routing of transmit/fetch/purge (data server of the source / "
+              "executor of the host, target address, fresh index) is checked on a shell object. ")
+LEVEL_NOTE = ("modelled, not verified: scheduler/api.py initialize/plan, scheduler/assign.py build_assignment + the pops of _assignment_heuristic, controller/act.py act/flush_queues, controller/notify.py notify/consider_*, impl.run loop skeleton (Model/Ctrl.lean, one Lean function per Python function). Abstracted as an oracle argument validated for admissibility by the model and supplied from what the real run chose: which (idle worker, computable task) pairs the distance/overhead heuristics and host->component migration pick per round, and which `available` host is the transmit source; theorems quantify over all admissible choices. Executors are abstract (Env + the non-atomic layer Model/CtrlN.lean; SimBridge mirrors both): a dispatched task starts once its inputs are in its host's store and publishes its outputs in index order, one step per output, interleaved with everything else; transmit/fetch read the source store; purge is immediate. Hypothesis WF: tasks topologically numbered, inputs duplicate-free, >=1 output per task, requested outputs exist, worker ids distinct (the generator guarantees it). Since the audit response: `outstanding` means 'no copy has been stored at the target yet' (transfer) / 'the payload is not yet on its way' (fetch); the answer of a fetch is shown delivered before the purge, the notice of a performed transfer may still be undelivered (literal reading fails harmlessly, witness corpus/Ctrl_c04_late_transfer_notice.json replayed on every run). Interface to C07: C04 guarantees the source is not purged before a copy is stored at the target; C07 guarantees re-sending until then (c07_retry_until_acked) and that a purge waits for sends in progress (c07_purge_waits). The executor's purge filter and the data server's `invalid` set are C07's (c07_exec_purge_filter).")
 TECHNIQUE = "Lean 4 inductive system invariant (data location vs controller belief) over a small-step transition system + step-by-step state correspondence with the real controller (SimBridge with the same monitors written from the property text)"
 LEAN_PROPS = ["EkwVerif.Props.C04"]
 LEAN_DRIVERS = ["Ctrl"]
